@@ -36,7 +36,7 @@ Definition entry_ok (e : N * hinfo) : bool :=
   std_registered k &&
   optN_eqb (if hi_has hi then Some (hi_rid hi) else None) (std_reply_id k) &&
   (negb (hi_has hi) || rkind_eqb (hi_kind hi) (kind_of_id k)) &&
-  (hi_rid hi <? 65536).
+  (hi_rid hi <? 65536) && (negb (hi_has hi) || (0 <? hi_rid hi)).
 
 Lemma table_entries_ok : forallb entry_ok default_handles = true.
 Proof. vm_compute. reflexivity. Qed.
@@ -257,26 +257,32 @@ Proof. unfold sub. rewrite firstn_length. lia. Qed.
 Lemma bytes_at0 l : bytes l -> at_ l 0 < 256.
 Proof. apply bytes_at. Qed.
 
+Lemma pair_some_inv {A B} (a c : A) (b d : B) : (a, Some b) = (c, Some d) -> a = c /\ b = d.
+Proof. intros H. inversion H. auto. Qed.
+
 Lemma reply_body_size k st m st' b : reply_body k st m = (st', Some b) ->
   hstate_ok st -> decoded_header m -> bytes (m_body m) -> (length b <= 1023)%nat /\ hstate_ok st'.
 Proof.
-  unfold hstate_ok. intros H Hs Hm Hb. destruct k; unfold reply_body in H; cbv beta iota zeta in H.
-  - injection H as <- <-. split; auto. unfold general_body. rewrite !app_length, !be_enc_length. cbn [length]. lia.
-  - injection H as <- <-. split; auto. rewrite !app_length, !be_enc_length.
-    pose proof (phone_of_length m Hm). cbn [length]. lia.
-  - destruct (auth_code m); [|discriminate]. injection H as <- <-. split; auto. unfold general_body.
-    rewrite !app_length, !be_enc_length. cbn [length]. lia.
-  - injection H as <- <-. rewrite be_enc_length. split. lia.
+  unfold hstate_ok. intros H Hs Hm Hb.
+  pose proof (phone_of_length m Hm) as Hp.
+  destruct k; unfold reply_body in H; cbv beta iota zeta in H.
+  - apply pair_some_inv in H as [<- <-]. split; auto. unfold general_body.
+    repeat (rewrite ?app_length, ?be_enc_length; cbn [length]). lia.
+  - apply pair_some_inv in H as [<- <-]. split; auto.
+    repeat (rewrite ?app_length, ?be_enc_length; cbn [length]). lia.
+  - destruct (auth_code m); [|discriminate]. apply pair_some_inv in H as [<- <-]. split; auto. unfold general_body.
+    repeat (rewrite ?app_length, ?be_enc_length; cbn [length]). lia.
+  - apply pair_some_inv in H as [<- <-]. split. repeat (rewrite ?app_length, ?be_enc_length; cbn [length]). lia.
     destruct (len (m_body m) <? 36); cbn [s_fname]; auto.
-  - injection H as <- <-.
-    match goal with |- context [s_fname ?X] => set (st1 := X) end.
+  - apply pair_some_inv in H as [<- <-].
+    match goal with |- _ /\ (length (s_fname ?X) <= _)%nat => set (st1 := X) end.
     assert (X : (length (s_fname st1) <= 255)%nat).
     { subst st1. destruct (len (m_body m) <? 6); auto.
       destruct (negb (len (m_body m) =? 6 + at_ (m_body m) 0)); cbn [s_fname]; auto.
       pose proof (sub_length_le (m_body m) 1 (1 + at_ (m_body m) 0)).
       pose proof (bytes_at0 _ Hb). lia. }
-    split; auto. rewrite !app_length. cbn [length]. lia.
-  - injection H as <- <-. split; auto. cbn [length]. lia.
+    split; auto. repeat (rewrite ?app_length; cbn [length]). lia.
+  - apply pair_some_inv in H as [<- <-]. split; auto. cbn [length]. lia.
 Qed.
 
 (* ------------------------------------------------------------------------------------------ *)
